@@ -141,3 +141,67 @@ func min64(a, b int64) int64 {
 	}
 	return b
 }
+
+func init() {
+	// raterun.switch <fastMs> <switchAfterMs> <fnMs> <restart 0|1> — a slow function keeps a tick of the fast
+	// schedule pending while the runner moves to an hourly schedule (by timer, or back to an hourly first
+	// schedule by Restart). No invocation may carry the hourly frequency within the observation window.
+	register("raterun.switch", func(a []string) string {
+		fast, after, fnD := ms(a[0]), ms(a[1]), ms(a[2])
+		restart := a[3] == "1"
+		var slowCalls, calls atomic.Int64
+		fn := func(f time.Duration) {
+			calls.Add(1)
+			if f >= time.Hour {
+				slowCalls.Add(1)
+			}
+			time.Sleep(fnD)
+		}
+		var sched []raterun.Schedule
+		if restart {
+			// first schedule hourly; the test starts on the second (fast) one via the timer, Restart goes back
+			sched = []raterun.Schedule{{StartDelay: 0, Frequency: time.Hour}, {StartDelay: time.Millisecond, Frequency: fast}}
+		} else {
+			sched = []raterun.Schedule{{StartDelay: 0, Frequency: fast}, {StartDelay: after, Frequency: time.Hour}}
+		}
+		r, err := raterun.New(fn, sched)
+		if err != nil {
+			return "err"
+		}
+		ctx, cancel := context.WithCancel(context.Background())
+		defer cancel()
+		r.Start(ctx)
+		if restart {
+			time.Sleep(after)
+			r.Restart()
+		}
+		time.Sleep(after + 6*fnD + 40*time.Millisecond)
+		r.Stop()
+		return fmt.Sprintf("callsWithHourlyFrequency=%d calls=%d", slowCalls.Load(), min64(calls.Load(), 1))
+	})
+	// raterun.count <freqMs> <runMs> — at most one invocation per tick: calls <= 1 + elapsed/freq
+	register("raterun.count", func(a []string) string {
+		freq, runD := ms(a[0]), ms(a[1])
+		var calls atomic.Int64
+		r, err := raterun.New(func(time.Duration) { calls.Add(1) }, []raterun.Schedule{{StartDelay: 0, Frequency: freq}})
+		if err != nil {
+			return "err"
+		}
+		ctx, cancel := context.WithCancel(context.Background())
+		defer cancel()
+		t0 := time.Now()
+		r.Start(ctx)
+		time.Sleep(runD)
+		r.Stop()
+		el := time.Since(t0)
+		ok := 1
+		if calls.Load() > 1+int64(el/freq) {
+			ok = 0
+		}
+		some := 0
+		if calls.Load() > 0 {
+			some = 1
+		}
+		return fmt.Sprintf("withinOnePerTick=%d someCalls=%d", ok, some)
+	})
+}
